@@ -166,7 +166,7 @@ def gen_scenarios(ctx):
     modes = ['threading', 'asyncio']
     grid = [(d, m, f, n) for d in DELAYS for m in MAXES for f in FACTORS for n in LIMITS]
     # (1) every failure pattern up to length 6 (exhaustive), each with several configurations
-    per = ctx.scale(6, 24)
+    per = ctx.scale(6, 60)
     for L in range(1, 7):
         for pattern in itertools.product([False, True], repeat=L):
             for mode in modes:
@@ -178,14 +178,14 @@ def gen_scenarios(ctx):
     # (2) the whole parameter grid, reconnection on, a short random pattern each
     for (d, m, f, n) in grid:
         for mode in modes:
-            for _ in range(ctx.scale(3, 10)):
+            for _ in range(ctx.scale(3, 30)):
                 cfg = mk_cfg(rng, d, m, f, n)
                 pattern = [rng.random() < 0.35 for _ in range(rng.randint(1, 7))]
                 ps = gen_params(rng, mode, simple=True)
                 steps = [['connect', 0]] + efforts_from_pattern(rng, mode, cfg, pattern, 1)
                 out.append(scenario(mode, cfg, [ps], steps, 'grid'))
     # (3) long patterns, sampled, up to 40 attempts
-    for _ in range(ctx.scale(250, 3000)):
+    for _ in range(ctx.scale(250, 10000)):
         mode = rng.choice(modes)
         cfg = mk_cfg(rng, n=rng.choice([0, 0, 0, 5]))
         L = rng.randint(7, 40)
@@ -198,7 +198,7 @@ def gen_scenarios(ctx):
     for m_fail in range(0, 7):
         for k in range(0, m_fail + 1):
             for mode in modes:
-                for _ in range(ctx.scale(8, 40)):
+                for _ in range(ctx.scale(8, 120)):
                     cfg = mk_cfg(rng, n=rng.choice([0, 0, 5, 2, 1]))
                     if cfg['attempts'] and k >= cfg['attempts']:
                         cfg['attempts'] = 0
@@ -219,7 +219,7 @@ def gen_scenarios(ctx):
     for cause in CAUSES:
         for rec in (True, False):
             for mode in modes:
-                for _ in range(ctx.scale(15, 100)):
+                for _ in range(ctx.scale(15, 300)):
                     cfg = mk_cfg(rng, rec=rec)
                     ps = gen_params(rng, mode, simple=rng.random() < 0.3)
                     nn = nns_of(ps)
@@ -238,7 +238,7 @@ def gen_scenarios(ctx):
                         steps += efforts_from_pattern(rng, mode, cfg, [True], nn)[:1]
                     out.append(scenario(mode, cfg, [ps], steps, 'cause.' + cause + ('.on' if rec else '.off')))
     # (6) parameters: a second connect() with other parameters, then a loss: the effort uses the new ones
-    for _ in range(ctx.scale(500, 5000)):
+    for _ in range(ctx.scale(500, 15000)):
         mode = rng.choice(modes)
         cfg = mk_cfg(rng, n=rng.choice([0, 5]))
         p0, p1 = gen_params(rng, mode), gen_params(rng, mode)
@@ -251,7 +251,7 @@ def gen_scenarios(ctx):
         out.append(scenario(mode, cfg, [p0, p1], steps, 'params'))
     # (7) the region of the known finding: an effort ends by give-up or abort, the application
     #     connects again, the transport is lost accidentally
-    for _ in range(ctx.scale(100, 800)):
+    for _ in range(ctx.scale(100, 2000)):
         mode = rng.choice(modes)
         how = rng.choice(['gaveUp', 'aborted'])
         cfg = mk_cfg(rng, n=rng.choice([1, 2]) if how == 'gaveUp' else 0)
@@ -329,9 +329,9 @@ def run_impl(sc):
                     'in_list_after': w.client in W.sio_base.reconnecting_clients,
                     'in_list_at_wait': list(w.in_list_at_wait), 'max_concurrent': w.max_concurrent,
                     'unused_outs': len(w.outs), 'unused_rands': len(w.rands) - w.rand_i})
-        obs['problems'] = list(w.problems)
     finally:
         w.close()
+        obs['problems'] = list(w.problems)
     return obs
 
 
@@ -595,6 +595,12 @@ def run(ctx):
         'CPython float arithmetic is exact on the generated grid (dyadic delays, caps, factors and '
         'random() values k/8; doubling up to 2^40): observed timeouts are compared as exact rationals',
         'threading.Event.wait / asyncio.wait_for treat a timeout <= 0 as "do not wait"'])
+    if ctx.thorough:
+        ok, out = C.leanchecker(['Sio.Props.C10'])
+        ctx.coverage['leanchecker'] = 'ok' if ok else out
+        if not ok:
+            ctx.violation('proof', 'leanchecker rejects Sio.Props.C10: ' + out, {'theorem_or_build': out},
+                          no_input=True)
     from .. import world_reconnect as W
     try:
         contract = contract_probe(ctx)
@@ -619,6 +625,7 @@ def run(ctx):
     nontrivial = set()
     samples = []
     n_attempts = 0
+    n_losses = 0
     for sc, obs, ans, cut in zip(scs, results, answers, cuts):
         ctx.count('scenario.' + sc['tag'])
         ctx.count('mode.' + sc['mode'])
@@ -632,6 +639,7 @@ def run(ctx):
             if st['kind'] != 'lose':
                 continue
             ctx.count('cause.' + st['cause'])
+            n_losses += 1
             if st['started']:
                 na = sum(1 for e in st['trace'] if isinstance(e, dict) and 'attempt' in e)
                 n_attempts += na
@@ -655,12 +663,13 @@ def run(ctx):
             samples.append({'scenario': sc, 'trace': show(canon_impl(
                 [e for s in obs['steps'] for e in s['trace']]))[:40]})
     ctx.coverage.update({
-        'evaluations': len(scs), 'distinct_nontrivial': len(nontrivial),
+        'evaluations': n_losses, 'scenarios': len(scs), 'distinct_nontrivial': len(nontrivial),
         'rule': 'scenario = real Client/AsyncClient driven through connect / loss (4 causes) / scripted effort '
                 '(every fail/succeed pattern up to length 6 exhaustively, sampled up to 40, failures being '
                 'transport refusals, namespace refusals (CONNECT_ERROR, partial or total) or a loss inside the '
                 'attempt; abort at every back-off wait by shutdown() or the abort flag; full grid of '
                 'delay x max x factor x limit; reconnection on/off; several connects with different parameters). '
+                'evaluation = one loss of the connection (decision + the effort it starts, if any); '
                 'non-trivial = distinct (family, configuration, effort script) with >= 2 attempts or an abort',
         'attempts_observed': n_attempts,
         'engineio_contract_measured': contract,
